@@ -883,9 +883,19 @@ func completePlannedThunkValueCatchingError(eCtx *executionContext, returnType T
 	}
 	result = fnResult
 	if rt, ok := returnType.(*NonNull); ok {
-		return completePlannedValue(eCtx, rt, fp, info, path, result)
+		completed = completePlannedValue(eCtx, rt, fp, info, path, result)
+	} else {
+		completed = completePlannedValue(eCtx, returnType, fp, info, path, result)
 	}
-	return completePlannedValue(eCtx, returnType, fp, info, path, result)
+	// A deferred value that yields another deferred value: force that one as
+	// well, the dethunkers replace a thunk only once.
+	for {
+		next, ok := completed.(func() interface{})
+		if !ok {
+			return completed
+		}
+		completed = next()
+	}
 }
 
 func completePlannedListValue(eCtx *executionContext, returnType *List, fp *fieldPlan, info ResolveInfo, path *ResponsePath, result interface{}) interface{} {
